@@ -10,6 +10,7 @@ use core::cmp::{max, min};
 use core::ops::RangeInclusive;
 use vstd::std_specs::cmp::OrdSpec;
 verus! {
+//@prelude std_combinators
 
 pub assume_specification<Idx>[ RangeInclusive::<Idx>::start ](r: &RangeInclusive<Idx>) -> (s: &Idx)
     ensures *s == r@.start;
